@@ -116,6 +116,7 @@ def ensure(variant, h=None):
         "lib": os.path.join(d, "lib", "libkalign_static.a"),
         "cli": os.path.join(d, "src", "kalign"),
         "probe": os.path.join(d, "kprobe"),
+        "probe_heap": os.path.join(d, "kprobe_heap"),
         "incbin": os.path.join(d, "lib"),
     }
     if os.path.exists(stamp):
@@ -144,8 +145,7 @@ def ensure(variant, h=None):
         _run(["cmake", "--build", d, "--target", "kalign_static", "kalign-bin", "-j", "16"], log=log)
         # probe: the only harness file that sees kalign's internal headers
         omp = "" if variant in ("noomp", "fuzz") else "-fopenmp"
-        heap = ["-DHEAP_ACCOUNT"] if variant == "plain" else []
-        cmd = [cc] + heap + cflags.replace("-fsanitize=fuzzer-no-link,", "-fsanitize=").split() + \
+        cmd = [cc] + cflags.replace("-fsanitize=fuzzer-no-link,", "-fsanitize=").split() + \
             ["-DHAVE_OPENMP" if omp else "-DNO_OPENMP",
              "-I", os.path.join(REPO, "lib", "include"), "-I", os.path.join(REPO, "lib", "src"),
              "-I", os.path.join(d, "lib"),
@@ -155,6 +155,13 @@ def ensure(variant, h=None):
         cmd += ldflags.split()
         if os.path.exists(os.path.join(NATIVE, "probe.c")):
             _run(cmd, log=log)
+            if variant == "plain":
+                # second probe with interposed malloc/free accounting (C16 only; never run under valgrind)
+                i = cmd.index(out["probe"])
+                cmd2 = list(cmd)
+                cmd2[i] = out["probe"] + "_heap"
+                cmd2.insert(1, "-DHEAP_ACCOUNT")
+                _run(cmd2, log=log)
         with open(stamp, "w") as fh:
             fh.write("%.1f\n" % (time.time() - t0))
         _prune(h)
